@@ -27,6 +27,12 @@ func (s *Store) Put(id packet.ID, future *Future) {
 	s.mutex.Lock()
 	defer s.mutex.Unlock()
 
+	// cancel a different future that gets replaced, as it can no longer be
+	// completed or cancelled through the store
+	if existing, ok := s.store[id]; ok && existing != future {
+		existing.Cancel(nil)
+	}
+
 	// set future
 	s.store[id] = future
 }
